@@ -138,4 +138,16 @@ example : (match simplify cfg0 20 {} (.op .and (.reg "a" 32 false) (.cst 0xff00 
 example : compWF 32 [(8, 16, .slc (.reg "a" 32 false) 8 8 false none 1), (0, 8, .cst 0 8 false), (16, 32, .cst 0 16 false)] = true := by
   decide
 
+/-- memory expressions: `mem(p, 32)[4:12]` is an 8-bit slice of the two covering bytes, `mem(p+4, 32, big-endian)[8:24]`
+    the 16-bit `mem` of its two middle bytes (`width_slice` covers every well-formed `mem` leaf) -/
+def exMem : Expr := .mem (.ptr (.reg "p" 32 false) none 0 32 false) 32 false false []
+def exMemBE : Expr := .mem (.ptr (.reg "p" 64 false) none 4 64 false) 32 false true []
+
+example : WF exMem ∧ WF exMemBE := by simp [exMem, exMemBE, WF, WFOpt, WFMods]
+
+example : (match getitem cfg0 5 exMem 4 12 with
+    | .ok (.slc (.mem _ 16 _ false _) 4 8 _ _ _) => true | _ => false) = true := by decide +kernel
+example : (match getitem cfg0 5 exMemBE 8 24 with
+    | .ok (.mem (.ptr _ _ 5 _ _) 16 _ true _) => true | _ => false) = true := by decide +kernel
+
 end Amoco.C12
